@@ -11,6 +11,18 @@ API = {'LockS', 'LockSIX', 'LockX', 'TryLockS', 'TryLockSIX', 'TryLockX', 'Prepa
        'GetCDF', 'GetHarmonicNum', 'UpdateCDF'}
 
 
+import re as _re
+
+# the classes the properties talk about (and their nested guard / node / slot classes): API names are anchors only there,
+# a helper class that happens to have a member called GetVersion is an ordinary helper
+_API_CLASS = _re.compile(r'(^|::)(PessimisticLock|OptimisticLock|MCSLock|IDManager|EpochManager|EpochGuard|Epoch|ZipfDistribution|'
+                         r'ApproxZipfDistribution)(<[^:]*>)?(::\w+)*$')
+
+
+def _api_record(rec):
+    return bool(rec) and '(anonymous namespace)' not in rec and bool(_API_CLASS.search(rec))
+
+
 def _calls(node, out):
     if isinstance(node, dict):
         if node.get('k') in ('mcall', 'call', 'opcall') and node.get('callee'):
@@ -28,7 +40,7 @@ def compute(fx):
     for k, f in fns.items():
         if f.get('kind') in ('ctor', 'dtor', 'conversion', 'lambda') or f.get('move_assign') or f.get('copy_assign'):
             anchors.add(k)
-        elif f.get('short') in API:
+        elif f.get('short') in API and (_api_record(f.get('record')) or not f.get('record')):
             anchors.add(k)
         elif f.get('short', '').startswith('operator'):
             anchors.add(k)
